@@ -14,10 +14,13 @@ SCHEMAS = ["prim_int", "prim_long", "prim_string", "prim_bytes", "prim_double", 
            "enum", "fixed", "rec_flat", "rec_floats", "rec_defaults", "rec_defaults2", "pair_array_int", "pair_map_long",
            "pair_array_record", "pair_map_union", "union_prims", "union_two_recs", "union_named_mix", "union_overlap",
            "pair_field_union", "pair_field_null", "pair_field_fixed", "pair_field_enum", "chain_rec_union_rec_arr",
-           "ref_after_def", "ns_inherit", "rec_list", "union_in_array_named", "rec_dictnull", "enum_default", "rec_enum_default", "hint_foreign"]
+           "ref_after_def", "ns_inherit", "rec_list", "union_in_array_named", "rec_dictnull", "enum_default", "rec_enum_default", "hint_foreign", "rec_defaults_bytes"]
 QUICK = ["prim_int", "prim_long", "prim_double", "enum", "fixed", "rec_flat", "rec_defaults", "pair_array_int",
          "pair_map_long", "union_named_mix", "union_two_recs", "pair_field_union", "pair_field_null", "rec_list",
-         "pair_array_record", "rec_dictnull", "enum_default", "rec_enum_default", "hint_foreign"]
+         "pair_array_record", "rec_dictnull", "enum_default", "rec_enum_default", "hint_foreign", "rec_defaults_bytes"]
+# a known defect is pinned to this schema (defaults of bytes/fixed fields given as JSON strings): every violation
+# found on it carries the finding's key
+KNOWN_KEYS = {"rec_defaults_bytes": "default:bytes-or-fixed-json-string"}
 
 
 def base_samples(c, seed, n):
@@ -263,10 +266,10 @@ def harnesses(tier, seed):
                           replay_call=call, setup=setup, what=f"writer agreement on mutated data of {name}", key=_wkey,
                           samples=[(0, 0, 7) + ((False,) if th else ()), (1, 1, 3) + ((False,) if th else ())]))
         if name in ("union_named_mix", "union_two_recs", "hint_foreign", "pair_field_union", "union_in_array_named"):
-            call = "ob_validate_hinted(C, v, hs)"
-            hs.append(Harness(f"validate.hinted.{name}", "props.l10", f"v: {a}, hs: Tuple[int, int]", call + "[0]", replay_call=call,
+            call = "ob_validate_hinted(C, v, (h0, 0))"
+            hs.append(Harness(f"validate.hinted.{name}", "props.l10", f"v: {a}, h0: int", call + "[0]", replay_call=call,
                               setup=setup, what=f"validate on hinted data of {name}",
-                              samples=[(x, (1, 0)) for x in sv[:1]] + [(x, (4, 0)) for x in sv[1:]]))
+                              samples=[(x, 1) for x in sv[:1]] + [(x, 4) for x in sv[1:]]))
         if name in ("pair_array_int", "pair_array_long", "pair_array_record", "chain_arr_arr"):
             setup2 = (f"from props.l2 import case\nC = case({name!r}, {th})\n"
                       f"C = dict(C, cfg=C['cfg'].but(K=2, ints='pool', bytes='pool'))\n"
@@ -279,6 +282,10 @@ def harnesses(tier, seed):
             call = "ob_strict(C, (B, si), pos)"
             hs.append(Harness(f"strict.{name}", "props.l10", "si: int, pos: int", call + "[0]", replay_call=call,
                               setup=setup, what=f"strict validation on {name}"))
+    for h in hs:
+        for nm, key in KNOWN_KEYS.items():
+            if h.name.endswith("." + nm):
+                h.key = (lambda a, k, key=key: key)
     return hs
 
 
